@@ -137,13 +137,14 @@ int main(int argc, char **argv) {
 		if (!only_proto.empty() && f.name != only_proto) { continue; }
 		std::vector<size_t> ns = f.sized ? (f.family == "qr" ? qr_sizes : sizes) : std::vector<size_t>{0};
 		if (isD && f.sized) ns = {2};
-		size_t nblocks = blocks_of(f.name);
+		size_t nblocks = blocks_of(f.name) * (quick ? 1 : 3);
 		for (size_t n : ns) for (size_t blk = 0; blk < nblocks; blk++) {
+			if (!quick && n == 8 && !(wi == 0 || wi == 3)) continue;                 // thorough: n = 8 in the S/random-g and G worlds
 			std::string cid = std::string(worlds[wi].tag) + " " + f.name + " n=" + std::to_string(n);
 			std::string desc = cid + " block=" + std::to_string(blk) + "/" + std::to_string(nblocks);
 			if (!case_begin(k++, desc)) continue;
 			World *&W = wcache[(int)wi];
-			if (!W) { W = new World(*worlds[wi].ps, worlds[wi].vkind, ctx.seed); if (isD) W->rabin_bits = 1024; prepare_world(*W, sizes, wi == 0 || isD); }
+			if (!W) { W = new World(*worlds[wi].ps, worlds[wi].vkind, ctx.seed); if (isD) W->rabin_bits = 1024; prepare_world(*W, isD ? std::vector<size_t>{2} : sizes, wi == 0 || isD); }
 			uint64_t cseed = fnv(cid);
 			auto make = [&](World &Wx) { Wx.rng = Rng(ctx.seed, cseed, 77); Rng rg(ctx.seed, cseed, 3); Rng *old = tl_rng; tl_rng = &rg; Instance *I = f.make(Wx, rg, n); tl_rng = old; return I; };
 			std::unique_ptr<Instance> I(make(*W));
@@ -174,7 +175,7 @@ int main(int argc, char **argv) {
 				note(V);
 				std::string cls = m.role + "/" + m.mut;
 				if (!m.judged) { count("equiv_executed/" + m.why + "/" + cls); if (V.accepted) count("equiv_accepted/" + m.why + "/" + cls); continue; }
-				judged++; count("judged_line_runs"); count("cov/" + f.name + "/" + cls); count("mut/" + m.mut); count("role/" + m.role);
+				judged++; count("judged_line_runs"); count("cov/" + f.name + "/" + cls); count("mut/" + m.mut); count("role/" + m.cls);
 				distinct.insert("L" + std::to_string(m.k) + "." + std::to_string(m.field) + "/" + m.mut);
 				if (V.accepted) {
 					J w; w.kv("world", worlds[wi].tag).kv("proto", f.name).kv("variant", I->variant).kv("n", (long long)n).kv("interactive", I->interactive)
